@@ -14,6 +14,7 @@ import (
 
 func init() {
 	register("C09", "component-wise structure of Eq instances; Hashable built on the matching Eq, deterministic and never finer than it", func(c *core.Ctx) {
+		ContraProj(c, "R-CONTRA", []*packages.Package{c.Pkg("eq"), c.Pkg("hash")})
 		eqh := []*packages.Package{c.Pkg("eq"), c.Pkg("hash")}
 		MapOK(c, "R-MAPOK", eqh, 0) // the one lookup disappears when the closure is written with maps.EqualFunc
 		Mirror(c, "R-MIRROR", eqh, typeclassBinMethods, false, nil, 40)
@@ -93,12 +94,22 @@ func HashRules(c *core.Ctx, p *packages.Package) {
 				for changed := true; changed; {
 					changed = false
 					ast.Inspect(fb.Body, func(y ast.Node) bool {
-						as, ok := y.(*ast.AssignStmt)
-						if !ok || len(as.Lhs) != 1 || len(as.Rhs) != 1 {
+						var lhs, rhs ast.Expr
+						switch d := y.(type) {
+						case *ast.AssignStmt:
+							if len(d.Lhs) == 1 && len(d.Rhs) == 1 {
+								lhs, rhs = d.Lhs[0], d.Rhs[0]
+							}
+						case *ast.ValueSpec: // var teq fp.Eq[T] = thash
+							if len(d.Names) == 1 && len(d.Values) == 1 {
+								lhs, rhs = d.Names[0], d.Values[0]
+							}
+						}
+						if lhs == nil {
 							return true
 						}
-						if o := objOf(info, as.Lhs[0]); o != nil && out[o] {
-							for d := range instanceObjs(info, as.Rhs[0]) {
+						if o := objOf(info, lhs); o != nil && out[o] {
+							for d := range instanceObjs(info, rhs) {
 								if !out[d] {
 									out[d] = true
 									changed = true
